@@ -1,3 +1,40 @@
-(* further engines register their handlers here *)
+(* Engine handlers for mvmodel: parse the harness' case encodings into the extracted types. *)
 open Util
-let register (reg : string -> (string list -> string) -> unit) = ignore reg; ignore hex_of_bytes
+let sl = Stdlib.String.length
+let split c s = Stdlib.String.split_on_char c s
+let hexd s = if s = "-" then [] else bytes_of_hex s
+let hexe l = if l = [] then "-" else hex_of_bytes l
+
+(* ---- Json ---- *)
+let pstate_of_int = function 0 -> JsonModel.SValue | 1 -> JsonModel.SObjectKey | 2 -> JsonModel.SObjectValue | _ -> JsonModel.SArray
+let int_of_pstate = function JsonModel.SValue -> 0 | JsonModel.SObjectKey -> 1 | JsonModel.SObjectValue -> 2 | JsonModel.SArray -> 3
+let gtype_of_int = function 0 -> JsonModel.GLiteral | 1 -> JsonModel.GNumber | 2 -> JsonModel.GString | 3 -> JsonModel.GStartObject
+  | 4 -> JsonModel.GEndObject | 5 -> JsonModel.GStartArray | _ -> JsonModel.GEndArray
+let int_of_gtype = function JsonModel.GLiteral -> 0 | JsonModel.GNumber -> 1 | JsonModel.GString -> 2 | JsonModel.GStartObject -> 3
+  | JsonModel.GEndObject -> 4 | JsonModel.GStartArray -> 5 | JsonModel.GEndArray -> 6
+let parse_events s =
+  if s = "" then [] else
+  Stdlib.List.map (fun e -> match split ':' e with
+    | [a; b; c] -> { JsonModel.e_state = pstate_of_int (int_of_string a); e_gt = gtype_of_int (int_of_string b); e_text = hexd c }
+    | _ -> failwith "event") (split ',' s)
+let show_events evs =
+  Stdlib.String.concat "," (Stdlib.List.map (fun e ->
+    Printf.sprintf "%d:%d:%s" (int_of_pstate e.JsonModel.e_state) (int_of_gtype e.JsonModel.e_gt) (hexe e.JsonModel.e_text)) evs)
+let parse_tree s =
+  let toks = ref (Stdlib.List.filter (fun x -> x <> "") (split ' ' s)) in
+  let next () = match !toks with t :: r -> toks := r; t | [] -> failwith "tree" in
+  let rec value () =
+    match next () with
+    | "L" -> JsonSpec.JLit (hexd (next ()))
+    | "N" -> JsonSpec.JNum (hexd (next ()))
+    | "S" -> JsonSpec.JStr (hexd (next ()))
+    | "A" -> let n = int_of_string (next ()) in JsonSpec.JArr (Stdlib.List.init n (fun _ -> value ()))
+    | "O" -> let n = int_of_string (next ()) in
+             JsonSpec.JObj (Stdlib.List.init n (fun _ -> let k = hexd (next ()) in let v = value () in (k, v)))
+    | _ -> failwith "tree tag" in
+  value ()
+
+let register (reg : string -> (string list -> string) -> unit) =
+  reg "json_events" (function [k; evs] -> hexe (JsonModel.json_minify_events (k = "1") (parse_events evs))
+                            | [k] -> hexe (JsonModel.json_minify_events (k = "1") []) | _ -> "BADARGS");
+  reg "json_tree" (function [t] -> show_events (JsonSpec.events_of JsonModel.SValue (parse_tree t)) | _ -> "BADARGS")
